@@ -91,18 +91,16 @@ Section Frame.
 
   Definition fr_init (c : CR) : frecv := mkFR None false c.
 
-  (* lines 268-299: header complete; new buffer size, or None = B_BAD_DATA.
-     hs+bodySize is uint32 arithmetic in the C++; a wrapped size below hs is undefined
-     behaviour there (memcpy of hs bytes into a smaller buffer, finding F3 of C02) and is an
-     error here. *)
+  (* lines 268-299: header complete; new buffer size, or None = B_BAD_DATA.  The second size
+     test (bodySize <= MUSCLE_NO_LIMIT-hs, added by the fix of finding F3) keeps hs+bodySize,
+     which is uint32 arithmetic in the C++, from wrapping around. *)
   Definition f_header (cap : N) (hdr : bytes) : option N :=
     let enc := rd32 (drop 4 hdr) in
     if (c_MUSCLE_MESSAGE_ENCODING_DEFAULT <=? enc) && (enc <=? c_MUSCLE_MESSAGE_ENCODING_END_MARKER - 1) then
       let body := rd32 hdr in
-      if body <=? max_in then
+      if (body <=? max_in) && (body <=? c_MUSCLE_NO_LIMIT - f_hs) then
         let avail := if f_hs <? cap then cap - f_hs else 0 in
-        if body <=? avail then Some (f_hs + body)
-        else if f_hs <=? u32 (f_hs + body) then Some (u32 (f_hs + body)) else None
+        if body <=? avail then Some (f_hs + body) else Some (u32 (f_hs + body))
       else None
     else None.
 
